@@ -136,6 +136,7 @@ type cond struct {
 	path []string
 	vals []string
 	re   *string
+	nums []int64 // list elements that are not strings (config form only, which = 3): appended after the strings
 }
 
 func (c cond) sx() hx.Sx {
@@ -143,12 +144,23 @@ func (c cond) sx() hx.Sx {
 	if c.re != nil {
 		r = hx.S(*c.re)
 	}
-	return hx.L(pathSx(c.path), hx.Ss(c.vals), r)
+	vs := hx.Items(hx.Ss(c.vals))
+	for _, n := range c.nums {
+		vs = append(vs, hx.Z(n))
+	}
+	return hx.L(pathSx(c.path), hx.L(vs...), r)
 }
 
 func condFromSx(s hx.Sx) cond {
 	it := hx.Items(s)
-	c := cond{path: strsOf(it[0]), vals: strsOf(it[1])}
+	c := cond{path: strsOf(it[0])}
+	for _, v := range hx.Items(it[1]) {
+		if hx.IsInt(v) {
+			c.nums = append(c.nums, hx.Int(v))
+		} else {
+			c.vals = append(c.vals, hx.Str(v))
+		}
+	}
 	if !hx.IsInt(it[2]) {
 		c.re = sp(hx.Str(it[2]))
 	}
@@ -228,37 +240,52 @@ func realAsInt(v hx.Sx) int64 {
 	return int64(root.AsInt())
 }
 
+// the oracle values one field operation may consult on the data its path selects
+func (t *tables) addField(x *rnode, data []byte) {
+	lx := data
+	if !x.cs {
+		lx = t.addLower(data)
+		m := maxRawLen(x.vals)
+		if m < len(data) {
+			t.addLower(data[:m])
+			t.addLower(data[len(data)-m:])
+		}
+		for _, v := range x.vals {
+			t.addLower(valBytes(v))
+		}
+	}
+	switch x.op {
+	case 5:
+		for _, v := range x.vals {
+			t.addRe(string(valBytes(v)), data)
+		}
+	case 2:
+		for _, v := range x.vals {
+			lc := valBytes(v)
+			if !x.cs {
+				lc = bytes.ToLower(lc)
+			}
+			t.any[[2]string{string(lx), string(lc)}] = bytes.ContainsAny(lx, string(lc))
+		}
+	}
+}
+
+// antispam data: only the field operations consult oracles
+func (t *tables) addTreeAs(n *rnode, d asData) {
+	n.walk(func(x *rnode) {
+		if x.kind == kField {
+			data, _ := d.get(x.path)
+			t.addField(x, data)
+		}
+	})
+}
+
 func (t *tables) addTree(n *rnode, ev hx.Sx) {
 	n.walk(func(x *rnode) {
 		switch x.kind {
 		case kField:
 			data, _, _ := jData(ev, x.path)
-			lx := data
-			if !x.cs {
-				lx = t.addLower(data)
-				m := maxRawLen(x.vals)
-				if m < len(data) {
-					t.addLower(data[:m])
-					t.addLower(data[len(data)-m:])
-				}
-				for _, v := range x.vals {
-					t.addLower(valBytes(v))
-				}
-			}
-			switch x.op {
-			case 5:
-				for _, v := range x.vals {
-					t.addRe(string(valBytes(v)), data)
-				}
-			case 2:
-				for _, v := range x.vals {
-					lc := valBytes(v)
-					if !x.cs {
-						lc = bytes.ToLower(lc)
-					}
-					t.any[[2]string{string(lx), string(lc)}] = bytes.ContainsAny(lx, string(lc))
-				}
-			}
+			t.addField(x, data)
 		case kLen:
 			if x.op == 2 {
 				if v, ok := jDig(ev, x.path); ok && (jKind(v) == 2 || jKind(v) == 3) {
@@ -348,6 +375,43 @@ type flags struct {
 
 func lenKept(b []byte) bool { return len(bytes.ToLower(b)) == len(b) }
 
+// the side condition fhyp of the theorem, evaluated with the real bytes.ToLower
+func fieldHypOK(x *rnode, data []byte) bool {
+	if x.cs {
+		return true
+	}
+	ok := lenKept(data)
+	for _, v := range x.vals {
+		ok = ok && lenKept(valBytes(v))
+	}
+	m := maxRawLen(x.vals)
+	if m < len(data) {
+		lo := bytes.ToLower(data)
+		if x.op == 3 && ok {
+			ok = bytes.Equal(bytes.ToLower(data[:m]), lo[:m])
+		}
+		if x.op == 4 && ok {
+			ok = bytes.Equal(bytes.ToLower(data[len(data)-m:]), lo[len(lo)-m:])
+		}
+	}
+	return ok
+}
+
+func classifyAs(n *rnode, d asData, f *flags) {
+	n.walk(func(x *rnode) {
+		if x.kind != kField {
+			return
+		}
+		data, absent := d.get(x.path)
+		if !absent {
+			f.resolves = true
+		}
+		if !fieldHypOK(x, data) {
+			f.hypFail = true
+		}
+	})
+}
+
 func classify(n *rnode, ev hx.Sx, f *flags) {
 	n.walk(func(x *rnode) {
 		if x.kind >= kAnd {
@@ -365,24 +429,7 @@ func classify(n *rnode, ev hx.Sx, f *flags) {
 				}
 				return
 			}
-			if x.cs {
-				return
-			}
-			ok := lenKept(data)
-			for _, v := range x.vals {
-				ok = ok && lenKept(valBytes(v))
-			}
-			m := maxRawLen(x.vals)
-			if m < len(data) {
-				lo := bytes.ToLower(data)
-				if x.op == 3 && ok {
-					ok = bytes.Equal(bytes.ToLower(data[:m]), lo[:m])
-				}
-				if x.op == 4 && ok {
-					ok = bytes.Equal(bytes.ToLower(data[len(data)-m:]), lo[len(lo)-m:])
-				}
-			}
-			if !ok {
+			if !fieldHypOK(x, data) {
 				f.hypFail = true
 			}
 		case kLen:
